@@ -21,7 +21,7 @@ _counter = itertools.count(1)
 
 BAD_KINDS = ["dup_dim", "dup_dim_refsym", "dup_symbol", "dup_symbol_type", "empty_symbol", "nonstr_symbol",
              "wrong_def_type", "wrong_def_dim", "def_not_qty", "derive_on_base", "derive_wrong_count",
-             "derive_wrong_order", "derive_nonunit", "derive_empty_symbol"]
+             "derive_wrong_order", "derive_nonunit", "derive_empty_symbol", "zero_def"]
 
 # documented exception class per kind
 EXPECT = {
@@ -29,6 +29,7 @@ EXPECT = {
     "empty_symbol": ValueError, "nonstr_symbol": TypeError, "wrong_def_type": TypeError, "wrong_def_dim": ValueError,
     "def_not_qty": TypeError, "derive_on_base": TypeError, "derive_wrong_count": ValueError,
     "derive_wrong_order": ValueError, "derive_nonunit": TypeError, "derive_empty_symbol": ValueError,
+    "zero_def": ValueError,
 }
 
 
@@ -115,6 +116,13 @@ class HGen(UGen):
         if what == "def_not_qty":
             t = draw(st.sampled_from(m.types))
             d.update(t=t.idx, val=draw(st.sampled_from([5, "x", 1.5])))
+            return d
+        if what == "zero_def":
+            # a unit of size zero (since finding 20 a rejected declaration): 0 x unit, as quantity or as term
+            if not withunits:
+                return None
+            t = draw(st.sampled_from(withunits))
+            d.update(t=t.idx, of=draw(st.sampled_from(t.units)), as_term=draw(st.booleans()))
             return d
         if what == "derive_on_base":
             base = [t for t in m.types if t.kind == "base" and t.units]
@@ -314,6 +322,13 @@ def exec_bad(w: World, d):
         cls = w.types[d["t"]]
         sym = w.newsym()
         return sym, lambda: cls.new_unit(sym, "bad", d["val"])
+    if what == "zero_def":
+        cls = w.types[d["t"]]
+        of = w.units[d["of"]]
+        sym = w.newsym()
+        if d.get("as_term"):
+            return sym, lambda: cls.new_unit(sym, "bad", Term(((0, 1), (of, 1))))
+        return sym, lambda: cls.new_unit(sym, "bad", 0 * of)
     if what in ("derive_on_base", "derive_wrong_count", "derive_wrong_order", "derive_nonunit",
                 "derive_empty_symbol"):
         cls = w.types[d["t"]]
